@@ -688,6 +688,28 @@ pub fn boxes_for(id: &str, quick: bool) -> Vec<Box_> {
         }
         "C03" => {
             v.push(mk("1 task T<=6 J<=12 C<=4 + curves", Ana::Fifo, 1, with_curves(sporadic_grid(6, 12)), 4, &[], false));
+            // superpositions built with sum_of (first summand jittered: its steps are not those of
+            // the second) next to plain sporadic tasks
+            let sums = |tl: &[u64], jl: &[u64], t2l: &[u64]| {
+                let mut g = vec![];
+                for t1 in tl {
+                    for j1 in jl {
+                        for t2 in t2l {
+                            g.push(ArrSpec::SumOf(Box::new(ArrSpec::Sporadic { t: *t1, j: *j1 }), Box::new(ArrSpec::Sporadic { t: *t2, j: 0 })));
+                        }
+                    }
+                }
+                for t in [3u64, 6, 12] {
+                    g.push(ArrSpec::Sporadic { t, j: 0 });
+                }
+                g
+            };
+            if quick {
+                v.push(mk("2 tasks sum_of((T1,J1),(T2,0)) T1{4,6} J1{2,5} T2{5,7} + sporadic, C<=2", Ana::Fifo, 2, sums(&[4, 6], &[2, 5], &[5, 7]), 2, &[], false));
+            } else {
+                v.push(mk("2 tasks sum_of((T1,J1),(T2,0)) T1{4,6,10} J1{2,5,8} T2{5,7,10} + sporadic, C<=3", Ana::Fifo, 2, sums(&[4, 6, 10], &[2, 5, 8], &[5, 7, 10]), 3, &[], false));
+                v.push(mk("3 tasks sum_of((T1,J1),(T2,0)) T1{6} J1{2,5} T2{5,7} + sporadic, C<=2", Ana::Fifo, 3, sums(&[6], &[2, 5], &[5, 7]), 2, &[], false));
+            }
             if quick {
                 v.push(mk("2 tasks T<=6 J<=3 C<=3", Ana::Fifo, 2, sporadic_grid(6, 3), 3, &[], false));
                 v.push(mk("3 tasks T<=4 J<=1 C<=2", Ana::Fifo, 3, sporadic_grid(4, 1), 2, &[], false));
